@@ -440,7 +440,7 @@ class BitArray(Bits):
         if not isinstance(pos, abc.Iterable):
             pos = (pos,)
         v = 1 if value else 0
-        if isinstance(pos, range) and len(pos) > 0 and 0 <= pos[0] < len(self) and 0 <= pos[-1] < len(self):
+        if isinstance(pos, range) and bool(pos) and 0 <= pos[0] < len(self) and 0 <= pos[-1] < len(self):
             # Fast path for a range that is wholly inside the bitstring - use the equivalent slice.
             if pos.step > 0:
                 self._bitstore.__setitem__(slice(pos[0], pos[-1] + 1, pos.step), v)
